@@ -49,6 +49,7 @@ def run(project, rep):
     rep.run(N.n_r7_routing, project, rep)
     rep.run(N.n_r7c_service_urls, project, rep)
     rep.run(N.n_r14_msgset_wiring, project, rep)
+    rep.run(N.n_r15_one_service_url_or_none, project, rep)
     from .. import rules_request as _Q13
     rep.run(_Q13.q_r13_send_path_leaves_the_request_alone, project, rep)
     rep.run(N.n_r8_cookies, project, rep)
